@@ -43,7 +43,64 @@ fn emit<Ctx: ScriptContext>(w: &World, ctxname: &str, admitted: bool, m: &Minisc
     );
 }
 
+/// Leaf constructors (`Miniscript::pk_k`, `pk_h`, `expr_raw_pkh`, ...) attach a type without calling
+/// `type_check`; the script decoder builds its leaves through them (a raw key hash exists only
+/// there).  Emit each leaf with the attached type, and small parents built by `from_ast` on top
+/// of it (whose rules read the attached type).  Seeded change C06-9.
+fn emit_ctor_leaves<Ctx: ScriptContext>(w: &World, ctxname: &str, ci: CtxInfo) {
+    let arc = |x: Miniscript<Key, Ctx>| Arc::new(x);
+    let mut leaves: Vec<Miniscript<Key, Ctx>> = vec![Miniscript::TRUE, Miniscript::FALSE];
+    for i in 0..2 {
+        let h = hash160::Hash::hash(&w.key_bytes(i, ci.tap));
+        leaves.push(Miniscript::expr_raw_pkh(h));
+        leaves.push(Miniscript::pk_k(w.key(i, ci.tap)));
+        leaves.push(Miniscript::pk_h(w.key(i, ci.tap)));
+    }
+    let other = w.key(2, ci.tap);
+    for leaf in leaves {
+        let admitted = leaf.validate_non_top_level(&Ctx::CONSENSUS).is_ok();
+        emit(w, ctxname, admitted, &leaf);
+        let parents: Vec<Terminal<Key, Ctx>> = vec![
+            Terminal::Check(arc(leaf.clone())),
+            Terminal::Verify(arc(leaf.clone())),
+            Terminal::Swap(arc(leaf.clone())),
+            Terminal::Alt(arc(leaf.clone())),
+        ];
+        for p in parents {
+            if let Ok(m1) = Miniscript::<Key, Ctx>::from_ast(p) {
+                let adm = m1.validate_non_top_level(&Ctx::CONSENSUS).is_ok();
+                emit(w, ctxname, adm, &m1);
+                let grand: Vec<Terminal<Key, Ctx>> = vec![
+                    Terminal::Swap(arc(m1.clone())),
+                    Terminal::Alt(arc(m1.clone())),
+                    Terminal::Verify(arc(m1.clone())),
+                    Terminal::AndV(arc(m1.clone()), arc(Miniscript::TRUE)),
+                ];
+                for gp in grand {
+                    if let Ok(m2) = Miniscript::<Key, Ctx>::from_ast(gp) {
+                        let adm = m2.validate_non_top_level(&Ctx::CONSENSUS).is_ok();
+                        emit(w, ctxname, adm, &m2);
+                        if let Ok(pk) = Miniscript::<Key, Ctx>::from_ast(Terminal::Check(arc(Miniscript::pk_k(other.clone())))) {
+                            for top in [
+                                Terminal::AndB(arc(pk.clone()), arc(m2.clone())),
+                                Terminal::OrB(arc(pk.clone()), arc(m2.clone())),
+                                Terminal::AndV(arc(m2.clone()), arc(pk.clone())),
+                            ] {
+                                if let Ok(m3) = Miniscript::<Key, Ctx>::from_ast(top) {
+                                    let adm = m3.validate_non_top_level(&Ctx::CONSENSUS).is_ok();
+                                    emit(w, ctxname, adm, &m3);
+                                }
+                            }
+                        }
+                    }
+                }
+            }
+        }
+    }
+}
+
 fn gen_ctx<Ctx: ScriptContext>(w: &World, ctxname: &str, ci: CtxInfo, seed: u64, n: u64) {
+    emit_ctor_leaves::<Ctx>(w, ctxname, ci);
     let mut g = Gen::new(w, seed, ci);
     for i in 0..n {
         let b = match i % 8 {
